@@ -26,6 +26,7 @@ import (
 	"verif/mc/ev"
 	rm "verif/mc/refmodel"
 	"verif/mc/schemas"
+	"verif/mc/workers"
 )
 
 // version k of row e: every column carries k
@@ -295,6 +296,7 @@ func c18CacheExplore(r *ev.Run, dbs *schemas.DB, ref *rm.Schema, sc c18CacheScen
 		}
 		retry = 0
 		r.Add("cache_executions", 1)
+		workers.Heartbeat()
 		r.Add("transitions", int64(len(res.Points)))
 		var trace []string
 		for _, p := range res.Points {
